@@ -299,6 +299,7 @@ impl Compiled for AST {
                         active_buffer.emit(OpCode::GetGlobal { name: index });
                     },
                 }
+                active_buffer.emit_unless(OpCode::Drop, keep_result);
             }
 
             AST::AssignVariable { name: Identifier(name), value } => {
